@@ -1,6 +1,385 @@
-//! C07: implementation-side case runners (see props/c07.py). Stub until the property is built.
+//! C07: native IcyDraw (.icy) documents through the public API (see props/c07.py).
+//!
+//! `icydoc <flags> <spec…>`  build a document from the flat spec, save it with
+//!     `Buffer::to_bytes("icy", lossles_output = true)`, reload it with `Buffer::from_bytes("t.icy")` and print
+//!     `n1 obs(original)… n2 obs(reloaded)… n3 file-bytes…`  (flags bit 0: include the file bytes,
+//!     bit 1: print only the file bytes, do not reload)
+//! `icyload <hex>`           `Buffer::from_bytes("t.icy", bytes)` and print obs(loaded)
+//!
+//! The observation vector is documented in `obs` below; the python side parses it with the same grammar.
+use crate::util::unhex;
 use crate::Obs;
+use icy_engine::{
+    AttributedChar, BitFont, Buffer, BufferType, Color, FontMode, IceMode, Layer, Line, Mode, Palette, PaletteMode, Position, Role, SauceData, SauceString,
+    SaveOptions, TextAttribute, TextPane,
+};
+use std::path::Path;
 
-pub fn run(_kind: &str, _args: &[&str]) -> Option<Obs> {
-    None
+struct Tok<'a> {
+    a: &'a [&'a str],
+    p: usize,
+}
+
+impl<'a> Tok<'a> {
+    fn s(&mut self) -> &'a str {
+        let r = self.a[self.p];
+        self.p += 1;
+        r
+    }
+    fn i(&mut self) -> i64 {
+        self.s().parse().unwrap()
+    }
+    fn b(&mut self) -> bool {
+        self.i() != 0
+    }
+    fn utf8(&mut self) -> String {
+        String::from_utf8(unhex(self.s())).unwrap()
+    }
+}
+
+fn lcg_bytes(seed: u64, n: usize) -> Vec<u8> {
+    let mut x = seed.wrapping_mul(6364136223846793005).wrapping_add(1442695040888963407);
+    let mut v = Vec::with_capacity(n);
+    for _ in 0..n {
+        x = x.wrapping_mul(6364136223846793005).wrapping_add(1442695040888963407);
+        v.push((x >> 33) as u8);
+    }
+    v
+}
+
+fn build(t: &mut Tok) -> Buffer {
+    let bw = t.i() as i32;
+    let bh = t.i() as i32;
+    let mut buf = Buffer::new((bw, bh));
+    buf.buffer_type = BufferType::from_byte(t.i() as u8);
+    buf.ice_mode = IceMode::from_byte(t.i() as u8);
+    buf.palette_mode = PaletteMode::from_byte(t.i() as u8);
+    buf.font_mode = FontMode::from_byte(t.i() as u8);
+    buf.layers.clear();
+    // sauce
+    if t.b() {
+        let mut s = SauceData::default();
+        s.title = SauceString::from(t.utf8());
+        s.author = SauceString::from(t.utf8());
+        s.group = SauceString::from(t.utf8());
+        let n = t.i();
+        for _ in 0..n {
+            s.comments.push(SauceString::from(t.utf8()));
+        }
+        s.use_letter_spacing = t.b();
+        s.use_aspect_ratio = t.b();
+        s.use_ice = t.b();
+        buf.set_sauce(Some(s), false);
+        buf.set_size((bw, bh));
+    }
+    // palette
+    let n = t.i();
+    if n >= 0 {
+        let mut cols = Vec::new();
+        for _ in 0..n {
+            let r = t.i() as u8;
+            let g = t.i() as u8;
+            let b = t.i() as u8;
+            cols.push(Color::new(r, g, b));
+        }
+        buf.palette = Palette::from_slice(&cols);
+    }
+    // fonts
+    let keep0 = t.b();
+    if !keep0 {
+        buf.remove_font(0);
+    }
+    let nf = t.i();
+    for _ in 0..nf {
+        let slot = t.i() as usize;
+        let name = t.utf8();
+        let kind = t.i();
+        let a = t.i();
+        let b = t.i();
+        let c = t.i();
+        let font = match kind {
+            0 => {
+                let mut f = BitFont::from_ansi_font_page(a as usize).unwrap();
+                f.name = name;
+                f
+            }
+            _ => BitFont::create_8(name, a as u8, b as u8, &lcg_bytes(c as u64, 256 * b as usize)),
+        };
+        buf.set_font(slot, font);
+    }
+    // layers
+    let nl = t.i();
+    for _ in 0..nl {
+        let title = t.utf8();
+        let role = t.i();
+        let mode = t.i();
+        let has_color = t.b();
+        let (r, g, b) = (t.i() as u8, t.i() as u8, t.i() as u8);
+        let vis = t.b();
+        let locked = t.b();
+        let pos_locked = t.b();
+        let alpha = t.b();
+        let alpha_locked = t.b();
+        let transparency = t.i() as u8;
+        let ox = t.i() as i32;
+        let oy = t.i() as i32;
+        let w = t.i() as i32;
+        let h = t.i() as i32;
+        let dfp = t.i() as usize;
+        let has_preview = t.b();
+        let (px, py) = (t.i() as i32, t.i() as i32);
+        let mut layer = Layer::new(title, (w, h));
+        layer.role = match role {
+            0 => Role::Normal,
+            1 => Role::PastePreview,
+            2 => Role::PasteImage,
+            _ => Role::Image,
+        };
+        layer.properties.mode = match mode {
+            0 => Mode::Normal,
+            1 => Mode::Chars,
+            _ => Mode::Attributes,
+        };
+        if has_color {
+            layer.properties.color = Some(Color::new(r, g, b));
+        }
+        layer.set_offset((ox, oy));
+        layer.transparency = transparency;
+        layer.default_font_page = dfp;
+        if has_preview {
+            layer.set_preview_offset(Some(Position::new(px, py)));
+        }
+        let nrows = t.i();
+        let mut lines = Vec::new();
+        for _ in 0..nrows {
+            let nc = t.i();
+            let mut line = Line::with_capacity(nc as i32);
+            for _ in 0..nc {
+                let ch = char::from_u32(t.i() as u32).unwrap();
+                let fg = t.i() as u32;
+                let bg = t.i() as u32;
+                let page = t.i() as usize;
+                let attr = t.i() as u16;
+                let mut a = TextAttribute::new(fg, bg);
+                a.set_font_page(page);
+                a.attr = attr;
+                line.chars.push(AttributedChar::new(ch, a));
+            }
+            lines.push(line);
+        }
+        layer.lines = lines;
+        layer.properties.is_visible = vis;
+        layer.properties.is_locked = locked;
+        layer.properties.is_position_locked = pos_locked;
+        layer.properties.has_alpha_channel = alpha;
+        layer.properties.is_alpha_channel_locked = alpha_locked;
+        buf.layers.push(layer);
+    }
+    buf
+}
+
+fn push_str(v: &mut Vec<i64>, s: &str) {
+    let b = s.as_bytes();
+    v.push(b.len() as i64);
+    v.extend(b.iter().map(|x| *x as i64));
+}
+
+fn push_chars(v: &mut Vec<i64>, s: &str) {
+    let c: Vec<char> = s.chars().collect();
+    v.push(c.len() as i64);
+    v.extend(c.iter().map(|x| *x as i64));
+}
+
+fn font_hash(f: &BitFont) -> (i64, i64) {
+    // FNV-1a over the glyph bytes of the codes 0..length (missing glyph = the marker byte 0xA5 and a count)
+    let mut h: u64 = 0xcbf29ce484222325;
+    let mut missing = 0;
+    for ch in 0..f.length.max(0) as u32 {
+        match char::from_u32(ch).and_then(|c| f.get_glyph(c)) {
+            Some(g) => {
+                for b in &g.data {
+                    h = (h ^ *b as u64).wrapping_mul(0x100000001b3);
+                }
+                h = (h ^ 0x1FF).wrapping_mul(0x100000001b3);
+            }
+            None => missing += 1,
+        }
+    }
+    ((h >> 2) as i64, missing)
+}
+
+/// bw bh buffer_type ice palette_mode font_mode
+/// has_sauce [title author group (as code points) ncomments comments… letter aspect ice data_type file_type sw sh has_font font]
+/// ncolors (r g b)…
+/// nfonts (slot name w h length hash missing)…   sorted by slot
+/// nlayers (title role mode has_color r g b vis locked pos_locked alpha alpha_locked transparency ox oy base_ox base_oy w h dfp
+///          nsixels nlines (ncells (ch fg bg page attr)…)…)…
+fn obs(buf: &Buffer) -> Vec<i64> {
+    let mut v = Vec::new();
+    v.push(buf.get_width() as i64);
+    v.push(buf.get_height() as i64);
+    v.push(buf.buffer_type.to_byte() as i64);
+    v.push(buf.ice_mode.to_byte() as i64);
+    v.push(buf.palette_mode.to_byte() as i64);
+    v.push(buf.font_mode.to_byte() as i64);
+    match buf.get_sauce() {
+        None => v.push(0),
+        Some(s) => {
+            v.push(1);
+            push_chars(&mut v, &s.title.to_string());
+            push_chars(&mut v, &s.author.to_string());
+            push_chars(&mut v, &s.group.to_string());
+            v.push(s.comments.len() as i64);
+            for c in &s.comments {
+                push_chars(&mut v, &c.to_string());
+            }
+            v.push(s.use_letter_spacing as i64);
+            v.push(s.use_aspect_ratio as i64);
+            v.push(s.use_ice as i64);
+            v.push(s.data_type.clone() as u8 as i64);
+            v.push(s.sauce_file_type as u8 as i64);
+            v.push(s.buffer_size.width as i64);
+            v.push(s.buffer_size.height as i64);
+            match &s.font_opt {
+                None => v.push(0),
+                Some(f) => {
+                    v.push(1);
+                    push_chars(&mut v, f);
+                }
+            }
+        }
+    }
+    v.push(buf.palette.len() as i64);
+    for i in 0..buf.palette.len() {
+        let (r, g, b) = buf.palette.get_rgb(i as u32);
+        v.extend([r as i64, g as i64, b as i64]);
+    }
+    let mut slots: Vec<usize> = buf.font_iter().map(|(k, _)| *k).collect();
+    slots.sort_unstable();
+    v.push(slots.len() as i64);
+    for k in slots {
+        let f = buf.get_font(k).unwrap();
+        v.push(k as i64);
+        push_str(&mut v, &f.name);
+        v.push(f.size.width as i64);
+        v.push(f.size.height as i64);
+        v.push(f.length as i64);
+        let (h, m) = font_hash(f);
+        v.push(h);
+        v.push(m);
+    }
+    v.push(buf.layers.len() as i64);
+    for l in &buf.layers {
+        push_str(&mut v, &l.properties.title);
+        v.push(match l.role {
+            Role::Normal => 0,
+            Role::PastePreview => 1,
+            Role::PasteImage => 2,
+            Role::Image => 3,
+        });
+        v.push(match l.properties.mode {
+            Mode::Normal => 0,
+            Mode::Chars => 1,
+            Mode::Attributes => 2,
+        });
+        match &l.properties.color {
+            None => v.extend([0, 0, 0, 0]),
+            Some(c) => {
+                let (r, g, b) = c.get_rgb();
+                v.extend([1, r as i64, g as i64, b as i64]);
+            }
+        }
+        v.push(l.properties.is_visible as i64);
+        v.push(l.properties.is_locked as i64);
+        v.push(l.properties.is_position_locked as i64);
+        v.push(l.properties.has_alpha_channel as i64);
+        v.push(l.properties.is_alpha_channel_locked as i64);
+        v.push(l.transparency as i64);
+        v.push(l.get_offset().x as i64);
+        v.push(l.get_offset().y as i64);
+        v.push(l.properties.offset.x as i64);
+        v.push(l.properties.offset.y as i64);
+        v.push(l.get_width() as i64);
+        v.push(l.get_height() as i64);
+        v.push(l.default_font_page as i64);
+        v.push(l.sixels.len() as i64);
+        v.push(l.lines.len() as i64);
+        for line in &l.lines {
+            v.push(line.chars.len() as i64);
+            for c in &line.chars {
+                v.push(c.ch as u32 as i64);
+                v.push(c.attribute.get_foreground() as i64);
+                v.push(c.attribute.get_background() as i64);
+                v.push(c.attribute.get_font_page() as i64);
+                v.push(c.attribute.attr as i64);
+            }
+        }
+    }
+    v
+}
+
+fn cls(e: &anyhow::Error) -> String {
+    // error classes, not messages
+    let s = format!("{e}").to_lowercase();
+    let known = [
+        ("unsupported header size", "header-size"),
+        ("data length out ouf bounds", "length"),
+        ("unsupported layer mode", "layer-mode"),
+        ("error while parsing font slot", "font-slot"),
+        ("error while encoding ztext chunk", "ztxt"),
+                ("png", "png"),
+    ];
+    for (k, c) in known {
+        if s.contains(k) {
+            return c.to_string();
+        }
+    }
+    let w: String = s.chars().take(40).map(|c| if c.is_ascii_alphanumeric() { c } else { '_' }).collect();
+    format!("other:{w}")
+}
+
+pub fn run(kind: &str, args: &[&str]) -> Option<Obs> {
+    Some(match kind {
+        "icydoc" => {
+            let mut t = Tok { a: args, p: 0 };
+            let flags = t.i();
+            let buf = build(&mut t);
+            let mut opt = SaveOptions::new();
+            opt.lossles_output = true;
+            let bytes = match buf.to_bytes("icy", &opt) {
+                Ok(b) => b,
+                Err(e) => return Some(Err(format!("save:{}", cls(&e)))),
+            };
+            let mut out = Vec::new();
+            if flags & 2 == 0 {
+                let o1 = obs(&buf);
+                let re = match Buffer::from_bytes(Path::new("t.icy"), true, &bytes) {
+                    Ok(b) => b,
+                    Err(e) => return Some(Err(format!("load:{}", cls(&e)))),
+                };
+                let o2 = obs(&re);
+                out.push(o1.len() as i64);
+                out.extend(o1);
+                out.push(o2.len() as i64);
+                out.extend(o2);
+            } else {
+                out.extend([0, 0]);
+            }
+            if flags & 3 != 0 {
+                out.push(bytes.len() as i64);
+                out.extend(bytes.iter().map(|x| *x as i64));
+            } else {
+                out.push(0);
+            }
+            Ok(out)
+        }
+        "icyload" => {
+            let bytes = unhex(args[0]);
+            match Buffer::from_bytes(Path::new("t.icy"), true, &bytes) {
+                Ok(b) => Ok(obs(&b)),
+                Err(e) => Err(format!("load:{}", cls(&e))),
+            }
+        }
+        _ => return None,
+    })
 }
